@@ -92,6 +92,7 @@ def eval (F : Facts) : List String → Option String
     let src := if kv bind = "0" then "source-port-ephemeral" else "source-port-bound"
     some s!"ok heard=[{kv want} x1] {src}"
   | "rlisten" :: _ => some "cycle-ok cycle-ok cycle-ok"
+  | ["rlisten-stop-during-onerror"] => some "returned"
   | "rdiscover" :: tT :: "|" :: plan => do
     let T ← (kv tT).toNat?
     let ps ← plan.mapM fun p => match p.splitOn ":" with
